@@ -6,7 +6,7 @@ import time
 
 VERIF = os.path.dirname(os.path.dirname(os.path.abspath(__file__)))
 REPLAY = os.path.join(VERIF, 'replay')
-HAVE = {'C01'}
+HAVE = {'C01', 'C08', 'C15'}
 _cache = {}
 
 
